@@ -922,6 +922,12 @@ impl Thread {
         self.global_env().get_macros()
     }
 
+    /// Forgets that a panic happened while the context was locked
+    #[doc(hidden)]
+    pub fn clear_context_poison(&self) {
+        self.context.clear_poison();
+    }
+
     /// Runs a garbage collection.
     pub fn collect(&self) {
         let mut context = self.owned_context();
